@@ -148,6 +148,9 @@ func (g *Gen) call(st *State, v ssa.Value, c *ssa.CallCommon, ins ssa.Instructio
 			g.setResults(v, sig, rs)
 			return
 		}
+		if !c.IsInvoke() && g.inlineCall(st, v, c.StaticCallee(), args) {
+			return
+		}
 		g.unknownCall(st, v, key, sig)
 		return
 	}
@@ -217,6 +220,165 @@ func (g *Gen) siteRequires(st *State, ins ssa.Instruction, key string, pos token
 func (g *Gen) assumeKnownRefAfterCall(st *State, t types.Type, term string) {
 	// results may be freshly allocated by the callee: bump the frontier first
 	g.assumeKnownRef(st, t, term)
+}
+
+// inlineCall executes a contract-less helper of the repository in place when that is possible: the body is loop-free, has no
+// defer / go / recover, and the nesting is shallow.  This keeps "extract a helper" refactorings from turning into havoc (and
+// alarms), and lets the caller's contract see through small helpers.  Returns false if the callee cannot be executed in place.
+func (g *Gen) inlineCall(st *State, v ssa.Value, callee *ssa.Function, args []string) bool {
+	root := g
+	depth := 0
+	for root.inlineOf != nil {
+		root = root.inlineOf
+		depth++
+	}
+	if depth >= 2 || !g.canInline(callee) {
+		return false
+	}
+	g2 := NewGen(g.eng, callee, root.ct)
+	g2.sc = g.sc
+	g2.inlineOf = g
+	g2.entry = root.entry
+	g2.oldFrontier = root.oldFrontier
+	g2.entryPrefix = root.entryPrefix
+	for i, p := range callee.Params {
+		if i < len(args) {
+			g2.val[p] = args[i]
+		}
+	}
+	g2.analyseAllocs()
+	work := st.clone()
+	ok := true
+	func() {
+		defer func() {
+			if r := recover(); r != nil {
+				ok = false
+			}
+		}()
+		for _, b := range g2.rpo() {
+			g2.curBlock = b
+			g2.processBlock(b, work)
+			if g2.refuse != "" {
+				ok = false
+				return
+			}
+		}
+	}()
+	if !ok {
+		return false
+	}
+	// join the return points
+	var edges []edge
+	for _, rp := range g2.rets {
+		edges = append(edges, edge{cond: rp.st.pc, st: rp.st})
+	}
+	m := g.sc.merge("inl_"+sanitize(callee.Name()), edges)
+	if len(edges) > 0 {
+		m.pc = st.pc // the helper returns on every path it does not panic on; panics are obligations of their own
+		g.sc.emit("(assert (=> %s %s))", st.pc, func() string {
+			var pcs []string
+			for _, e := range edges {
+				pcs = append(pcs, e.cond)
+			}
+			return "(or " + strings.Join(pcs, " ") + ")"
+		}())
+	}
+	st.pc, st.epoch, st.mem, st.locals = m.pc, m.epoch, m.mem, m.locals
+	// results
+	sig := callee.Signature
+	n := sig.Results().Len()
+	rs := make([]string, n)
+	for i := 0; i < n; i++ {
+		if len(g2.rets) == 0 {
+			rs[i] = g.sc.sorts.zero(sig.Results().At(i).Type())
+			continue
+		}
+		term := g2.rets[len(g2.rets)-1].results[i]
+		for k := len(g2.rets) - 2; k >= 0; k-- {
+			term = fmt.Sprintf("(ite %s %s %s)", g2.rets[k].st.pc, g2.rets[k].results[i], term)
+		}
+		rs[i] = g.sc.define("inl_"+sanitize(callee.Name())+"_r", g.sc.sorts.sortOf(sig.Results().At(i).Type()), term)
+	}
+	if v != nil {
+		g.setResults(v, sig, rs)
+	}
+	for a := range g2.assumptions {
+		root.assumptions[a] = true
+	}
+	for u := range g2.uncontracted {
+		root.uncontracted[u] = true
+	}
+	root.notes = append(root.notes, "helper without a contract executed in place: "+callee.String())
+	root.pathPoints = append(root.pathPoints, g2.pathPoints...)
+	return true
+}
+
+// canInline: a helper of the repository without a contract that can be executed in place (loop-free, no defer/go/closures).
+func (g *Gen) canInline(callee *ssa.Function) bool {
+	if callee == nil || len(callee.Blocks) == 0 || callee.Pkg == nil || !strings.HasPrefix(callee.Pkg.Pkg.Path(), repoMod) {
+		return false
+	}
+	if g.eng.db.Contracts[callee.String()] != nil {
+		return false
+	}
+	if len(callee.FreeVars) > 0 || callee.Recover != nil || len(callee.Blocks) > 40 {
+		return false
+	}
+	for x := g; x != nil; x = x.inlineOf {
+		if x.fn == callee {
+			return false // recursion
+		}
+	}
+	for _, b := range callee.Blocks {
+		for _, ins := range b.Instrs {
+			switch ins.(type) {
+			case *ssa.Defer, *ssa.Go, *ssa.Select, *ssa.Send, *ssa.MakeChan, *ssa.RunDefers, *ssa.MakeClosure, *ssa.Range, *ssa.Next:
+				return false
+			}
+		}
+		for _, s := range b.Succs {
+			if s.Dominates(b) {
+				return false // a loop: needs an invariant, hence a contract
+			}
+		}
+	}
+	return true
+}
+
+// inlineModTags: heap tags an in-place helper may write (for the havoc at the head of a loop that calls it).
+func (g *Gen) inlineModTags(callee *ssa.Function, depth int) (map[string]bool, bool) {
+	tags := map[string]bool{}
+	g2 := NewGen(g.eng, callee, nil)
+	g2.sc = g.sc
+	g2.inlineOf = g
+	g2.analyseAllocs()
+	all := false
+	for _, b := range callee.Blocks {
+		for _, ins := range b.Instrs {
+			switch x := ins.(type) {
+			case *ssa.Store:
+				if p := g2.localPathOf(x.Addr); p != nil {
+					continue
+				}
+				g2.collectStoreTags(x.Addr, x.Val.Type(), tags)
+			case *ssa.MapUpdate:
+				d, v, l := g.mapTags(x.Map.Type().Underlying().(*types.Map))
+				tags[d], tags[v], tags[l] = true, true, true
+			case ssa.CallInstruction:
+				if depth >= 2 {
+					return tags, true
+				}
+				ts, a := g2.calleeModTags(x)
+				if a {
+					all = true
+				}
+				for t := range ts {
+					tags[t] = true
+				}
+			}
+		}
+	}
+	return tags, all
 }
 
 func (g *Gen) unknownCall(st *State, v ssa.Value, key string, sig *types.Signature) {
@@ -548,6 +710,13 @@ func (g *Gen) calleeModTags(ci ssa.CallInstruction) (map[string]bool, bool) {
 	if ct == nil {
 		if key != "" && g.eng.isPureExtern(key) {
 			return tags, false
+		}
+		if !c.IsInvoke() && g.canInline(c.StaticCallee()) {
+			depth := 0
+			for x := g; x.inlineOf != nil; x = x.inlineOf {
+				depth++
+			}
+			return g.inlineModTags(c.StaticCallee(), depth)
 		}
 		return tags, true
 	}
